@@ -16,7 +16,7 @@ import time
 
 from common import (REPO, MachineryError, classify, finish, parse_printed, pmap, run_tlc, seed, subdir, tier,
                     tla_value, write_replay)
-from calls import BadType, key_of, run_call, validate_calls, want_bool, want_int
+from calls import BadType, key_of, limit_jvm, retry, run_call, validate_calls, want_bool, want_int
 
 PROP = "C18"
 MAXLEN = 300
@@ -294,12 +294,13 @@ def nontrivial(r):
 def main(argv_tier=None, replay_path=None):
     t0 = time.time()
     tr = tier(argv_tier)
+    limit_jvm()
     impl()
     if replay_path:
         with open(replay_path) as fh:
             rp = json.load(fh)
         recs = [execute(s) for s in rp["calls"]]
-        fails, _ = validate_calls("Trace_BitVec", recs, group=50)
+        fails, _ = retry(validate_calls, "Trace_BitVec", recs, group=50)
         bad = {f["index"]: f for f in fails}
         for i, r in enumerate(recs):
             print(("REJECT %s: " % bad[i]["why"] if i in bad else "accept: ") + describe(r))
@@ -315,7 +316,7 @@ def main(argv_tier=None, replay_path=None):
         raise MachineryError("law list of MC_BitVec not found")
     cfg = ("CONSTANTS W = %d\nWP = %d\nSPECIFICATION MCSpec\nINVARIANT Emit\nINVARIANT TypeOK\n" % (W, WP)
            + "".join("INVARIANT %s\n" % x for x in laws) + "CHECK_DEADLOCK FALSE\n")
-    r = run_tlc("MC_BitVec", cfg)
+    r = retry(run_tlc, "MC_BitVec", cfg)
     dom = sorted({tuple(tla_value(x)[1]) for x in parse_printed(r.out, "H")}, key=lambda b: (len(b), b))
     nvals, npair = 2 ** (W + 1) - 1, 2 ** (WP + 1) - 1
     if len(dom) != nvals or r.distinct != nvals + nvals * npair:
@@ -391,7 +392,7 @@ def main(argv_tier=None, replay_path=None):
         for rr in pmap(run_unit, us):
             recs += rr
         big = any(u[0] == "big" for u in us)
-        fails, agg = validate_calls("Trace_BitVec", recs, group=60 if big else 150, consts=consts, name="c18")
+        fails, agg = retry(validate_calls, "Trace_BitVec", recs, group=60 if big else 150, consts=consts, name="c18")
         agg_all["generated"] += agg["generated"]
         agg_all["distinct"] += agg["distinct"]
         ncalls += len(recs)
@@ -412,7 +413,12 @@ def main(argv_tier=None, replay_path=None):
         raise MachineryError("operations never exercised: %s" % missing)
     # ---- verdict
     drift = [(f, x) for f, x in viol_records if f["op"] in DRIFT_OPS]
-    rej = [{"key": "%s:%s" % (f["op"], f["why"]), "trace": x, "verdict": f} for f, x in viol_records if f["op"] not in DRIFT_OPS]
+    rej, dup = [], set()
+    for f, x in viol_records:
+        if f["op"] in DRIFT_OPS or key_of(x) in dup:      # the same call generated twice: one violation
+            continue
+        dup.add(key_of(x))
+        rej.append({"key": "%s:%s" % (f["op"], f["why"]), "trace": x, "verdict": f})
     viol, seen = classify(PROP, rej)
     for f, x in drift[:10]:
         print("DRIFT property=%s %s  # %s" % (PROP, f["why"], describe(x)))
@@ -447,7 +453,9 @@ def main(argv_tier=None, replay_path=None):
                 "boundary values 0, 2^k-1, 2^k, 2^k+1 for %d values of k in 0..%d and %d random values of length 9..%d (each also zero-padded, "
                 "paired with neighbours); distinct = distinct (operation, arguments); non-trivial = some argument has a 1 bit"
                 % (W, SL, NS, WP, len(ks), MAXLEN, nrand, MAXLEN),
-        "exhaustive": True,
+        "exhaustive": False,
+        "exhaustive_subdomain": "every bit string of length <= %d for the unary operations and constructions, every pair with both "
+                                "lengths <= %d for the binary operators; lengths 9..%d are boundary values and random samples" % (W, WP, MAXLEN),
         "violating_calls": len(viol),
         "violation_classes": {k: len(v) for k, v in classes.items()},
         "drift": [{"why": f["why"], "call": describe(x)} for f, x in drift[:20]],
